@@ -291,3 +291,137 @@ def u_mvn_init(ip):
     cls, kw = mvn_real_ctor(ip, P, loc, None, rank=rk, log_pdet=lpd)
     d = ip.call(cls, [loc, P], kw)
     c.oblige("supplied_rank_and_log_pdet_stored_as_given", And(to_sort(ip.getattr(d, "rank"), Real) == rk, to_sort(ip.getattr(d, "log_pdet"), Real) == lpd))
+
+
+def sampling_models(ip, got, dim=3):
+    """linear-algebra vocabulary of the sampling units: eigh(M) = (one vector of `dim` real unknowns per matrix term M, eigvecs_of(M));
+    zeros(shape).at[..., r, r].set(v) = the diagonal matrix diag(v) (recorded); `@` and the other array operators are uninterpreted"""
+    from pyvc.models_jax import CVec
+    c = ip.ctx
+    evs = got.setdefault("eigh", [])
+
+    def eigh(ip_, m):
+        mu = ip_.to_U(m)
+        for m0, ev0 in evs:
+            if m0.eq(mu):
+                return ev0, ip_.uf("eigvecs_of", mu)
+        ev = CVec([c.fresh(f"ev{len(evs)}_{i}", Real) for i in range(dim)])
+        c.assume(And(*[ev[i] <= ev[i + 1] for i in range(dim - 1)]))
+        evs.append((mu, ev))
+        return ev, ip_.uf("eigvecs_of", mu)
+
+    def zeros(ip_, shape, *a, **k):
+        shape = tuple(shape)
+
+        def index(ip2, idx):
+            idx = tuple(idx) if isinstance(idx, (tuple, list)) else (idx,)
+            rows_cols = [x for x in idx if x is not Ellipsis]
+            want = tuple(range(dim))
+            if not (len(idx) == 3 and idx[0] is Ellipsis and len(rows_cols) == 2 and all(tuple(x) == want for x in rows_cols) and shape == (dim, dim)):
+                raise Unsupported(f"zeros{shape}.at[{idx!r}]")
+
+            def _set(ip3, val):
+                if not getattr(val, "__cvec__", False) or len(val) != dim:
+                    raise Unsupported("diagonal set with a non-vector")
+                got.setdefault("diag", []).append(CVec(val))
+                return ip3.uf("diag", ip3.to_U(CVec(val)))
+
+            return PyObj("at_index", set=PyFn(_set, "at.set"))
+
+        return PyObj("zeros", shape=shape, at=PyObj("zeros.at", __getitem__=PyFn(index, "zeros.at[]")))
+
+    ip.models["jax.numpy.linalg.eigh"] = eigh
+    ip.models["jax.numpy.zeros"] = zeros
+    ip.models["jax.numpy.reshape"] = lambda ip_, x, shape, *a, **k: ip_.uf("reshape", ip_.to_U(x), ip_.to_U(list(shape)))
+    ip.models["opaque_binop"] = lambda ip_, op, a, b: ip_.uf("mat_" + op, ip_.to_U(a), ip_.to_z3_any(b) if not (is_z3(b) and b.sort() == U) else b)
+    ip.models["binop:MatMult"] = lambda ip_, a, b: ip_.uf("mat_MatMult", ip_.to_U(a), ip_.to_U(b))
+
+
+def sampling_factor_obligations(ip, d, P, tol, got, tag):
+    """S = _sqrt_pcov of the object d with precision term P: S = Q diag(s) with (ev, Q) = eigh(P), s_i^2 = 1/ev_i for every eigenvalue
+    above the tolerance and s_i = 0 for every eigenvalue below it  =>  S S' = Q diag(s^2) Q' = pseudo-inverse of P, range(S) = range(P)"""
+    c = ip.ctx
+    n0 = len(got.get("diag", []))
+    S = ip.getattr(d, "_sqrt_pcov")
+    diags = got.get("diag", [])[n0:]
+    evs = [ev for m0, ev in got["eigh"] if m0.eq(ip.to_U(P))]
+    ok_shape = len(diags) == 1 and len(evs) == 1
+    c.oblige(f"factor_uses_the_eigendecomposition_of_the_objects_own_precision.{tag}", ok_shape)
+    if not ok_shape:
+        return S
+    s, ev = diags[0], evs[0]
+    c.oblige(f"factor_is_eigenvectors_times_diagonal.{tag}", ip.to_U(S) == ip.uf("mat_MatMult", ip.uf("eigvecs_of", ip.to_U(P)), ip.uf("diag", ip.to_U(s))))
+    for i in range(len(ev)):
+        c.oblige(f"null_directions_get_no_mass.{tag}.{i}", z3.Implies(ev[i] < tol, to_sort(s[i], Real) == 0))
+        c.oblige(f"range_directions_get_the_inverse_eigenvalue_as_variance.{tag}.{i}",
+                 z3.Implies(ev[i] > tol, And(to_sort(s[i], Real) * to_sort(s[i], Real) * ev[i] == 1, to_sort(s[i], Real) > 0)))
+    return S
+
+
+@unit("C18.mvn_degen_sampling_factor", "C18", [f"{MVN}::MultivariateNormalDegenerate._sqrt_pcov", f"{MVN}::MultivariateNormalDegenerate.eig",
+                                               f"{MVN}::MultivariateNormalDegenerate.__init__", f"{MVN}::MultivariateNormalDegenerate._sample_n",
+                                               f"{MVN}::MultivariateNormalDegenerate.from_penalty", f"{MVN}::MultivariateNormalDegenerate.from_penalty_smooth"],
+      summaries=[f"{MVN}::_rank, _log_pdet (C18.rank_and_log_pdet)"],
+      assumptions=["event size 3, no batch dimensions; A-REAL (sqrt(x)^2 = x, sqrt(x) >= 0 for x >= 0); T: jnp.linalg.eigh(P) = (ascending eigenvalues, orthonormal "
+                   "eigenvectors Q) with P = Q diag(ev) Q' (then S S' = Q diag(s^2) Q' is the pseudo-inverse: A-LA, not derived); T: zeros(..).at[..., r, r].set(v) = diag(v); "
+                   "T: jax.random.normal(key, shape) = iid standard normal draws; an eigenvalue exactly equal to the tolerance is left unspecified; "
+                   "T: the TFP base-class constructor stores nothing this class reads; T: tfd.Distribution.event_shape = self._event_shape()"])
+def u_mvn_sampling(ip):
+    """samples lie in the range space with the pseudo-inverse as covariance: for objects built by the REAL constructor (rank / log_pdet derived,
+    supplied as reals, supplied as the python int = dimension) and by the REAL penalty constructors (variance / smoothing parameter, rank
+    derived or supplied), the sampling factor is S = Q diag(s) over the eigendecomposition of THE OBJECT'S OWN precision with s_i^2 = 1/ev_i
+    above the tolerance and s_i = 0 below; and _sample_n(n, seed) = reshape(S @ z, [n, 3]) + loc with z = normal(seed, [n, 3, 1]): one
+    draw of the right shape from exactly the given key."""
+    c = ip.ctx
+    P, loc, K = z3.Const("P", U), z3.Const("loc", U), z3.Const("K", U)
+    ip.models["extattr:event_shape"] = lambda ip_, o: list(ip_.call(method(ip_, o, "_event_shape"), [], {}))
+    default_tol = z3.RealVal("1/1000000")
+    cases = []
+    for tag, tol, rank, lpd in (("derived", c.fresh("tol", Real), None, None), ("default_tol", None, None, None),
+                                ("supplied", None, c.fresh("rank_in", Real), c.fresh("lpd_in", Real)), ("int_full_rank", None, 3, c.fresh("lpd_in", Real))):
+        got = {}
+        if tol is not None:
+            c.assume(tol > 0)
+        cls, kw = mvn_real_ctor(ip, P, loc, tol, rank=rank, log_pdet=lpd)
+        sampling_models(ip, got)
+        d = ip.call(cls, [loc, P], kw)
+        S = sampling_factor_obligations(ip, d, P, tol if tol is not None else default_tol, got, tag)
+        cases.append((tag, d, S))
+    # penalty constructors with the REAL class as `cls`
+    var = c.fresh("var", Real)
+    c.assume(var > 0)
+    log_law_inverse(c, var)
+    MV = ip.repo(f"{MVN}::MultivariateNormalDegenerate")
+    for ctor, arg, prec_term in (("from_penalty", var, lambda: ip.uf("mat_Div", K, var)), ("from_penalty_smooth", var, lambda: ip.uf("mat_Mult", K, var))):
+        for given in (False, True):
+            got = {}
+            rec = {}
+            mvn_models(ip, rec)
+            cls, _ = mvn_real_ctor(ip, P, loc, None)
+            ip.opaque_attr["shape"] = lambda ip_, v: (3,) if v.eq(loc) else (3, 3)
+            sampling_models(ip, got)
+            ip.models["jax.numpy.linalg.eigvalsh"] = lambda ip_, m: ip_.uf("eigvalsh", ip_.to_U(m))
+            _, m = MV.find(ip, ctor)
+            kw = {"rank": c.fresh("rank_in", Real), "log_pdet": c.fresh("lpd_in", Real)} if given else {}
+            d = ip.call(m, [cls, loc, arg, K], kw)
+            Pd = ip.getattr(d, "_prec")
+            tag = f"{ctor}.{'supplied' if given else 'derived'}"
+            c.oblige(f"precision_of_the_built_object.{tag}", ip.to_U(Pd) == prec_term(), structural=True)
+            sampling_factor_obligations(ip, d, Pd, default_tol, got, tag)
+    # the draw
+    tag, d, S = cases[0]
+    n = 5
+    keys = []
+    prev_normal = ip.models["jax.random.normal"]
+
+    def normal(ip_, key=None, shape=(), *a, **k):
+        keys.append((key, list(shape)))
+        return ip_.uf("normal", ip_.to_U(key), ip_.to_U(list(shape)))
+
+    ip.models["jax.random.normal"] = normal
+    seed = z3.Const("seed", U)
+    r = ip.call(method(ip, d, "_sample_n"), [n], {"seed": seed})
+    c.oblige("one_standard_normal_draw_of_shape_n_by_event_by_1_from_the_given_key", len(keys) == 1 and keys[0][0] is seed and keys[0][1] == [n, 3, 1])
+    z = ip.uf("normal", seed, ip.to_U([n, 3, 1]))
+    c.oblige("sample_is_location_plus_factor_times_standard_normal",
+             ip.to_U(r) == ip.uf("mat_Add", ip.uf("reshape", ip.uf("mat_MatMult", ip.to_U(S), z), ip.to_U([n, 3])), loc))
